@@ -456,6 +456,8 @@ def run(F, R, tier):
     if not absorbed:
         R.soft_broken("R4: no absorbed pole found (anchor tan_alpha in src/MSSMNoFV/gm2_2loop.cpp vanished?)")
 
+    _series_branches(F, R)
+
     lo, hi = GUARD_BAND
     R.rule("R3", "tolerance of every pole guard >= %.0e (below that the rounding error of the cancelling numerator, amplified "
                  "by the pole, exceeds 1%%); every shift(v, limit, eps) moves by <= %.0e (the quantifier bounds the slope by "
@@ -850,3 +852,57 @@ def _denominator(d, assumed, found, f, short):
             # a factor is fine only if it is guarded on every path it occurs on
             if prev is None or (prev[1] is not None and guard is None):
                 found[key] = (q, guard, qtxt, " && ".join(("" if tr else "!") + show(c)[:40] for c, tr in allassumed))
+
+
+
+def _series_branches(F, R, rule="R5"):
+    """R5: a near-degenerate branch that returns a truncated series must be the expansion of the generic branch of the
+    same function (dxlog: (a^2 log a - b^2 log b)/(a - b) around a = b), to the order written"""
+    from .closedform import canon
+    from .series import SeriesError
+    from .rules_c01 import leaves
+    from .rules_c02 import small_o, generic_leaf, subst_sym, true_conds
+    from .closedform import N as NUM
+    R.rule(rule, "near-degenerate series branch == expansion of the generic branch of the same function, to the written order "
+                 "(dxlog around a = b)", 1)
+    n = 0
+    for k, f in sorted(F.functions.items(), key=lambda x: (x[1]["file"], x[1]["line"])):
+        if f["file"] != "src/THDM/gm2_2loop_B.cpp" or len(f["params"]) != 2:
+            continue
+        pn = [p["name"] for p in f["params"]]
+        E = Evaluator(F, inline=lambda n_, g: bool(INLINE_HELPERS.search(n_)), max_depth=3)
+        v, fr = E.function_value(f)
+        ls = leaves(v)
+        near = [(fa, val) for fa, val in ls if any(c[0] == "call" and str(c[1]).split("::")[-1] == "is_equal_rel" and
+                                                   {c[2][0], c[2][1]} == {("sym", pn[0]), ("sym", pn[1])} for c in true_conds(fa))]
+        g = generic_leaf(ls)
+        if not near or g is None:
+            continue
+        short = f["name"].split("::")[-1]
+        for fa, val in near:
+            n += 1
+            try:
+                env = {pn[0]: ("*", ("sym", pn[1]), ("+", NUM(1), ("sym", "t")))}
+                A, G = canon(subst_sym(val, env)), canon(subst_sym(g[1], env))
+                deg = 0
+                for o_ in range(1, 8):
+                    if small_o(A, G, "t", o_) is None:
+                        deg = o_
+                    else:
+                        break
+                # order actually written in the code: degree of the series branch in (a - b)
+                written = canon(subst_sym(val, {pn[0]: ("+", ("sym", pn[1]), ("sym", "__d"))})).n.degree_in(("sym", "__d"))
+                R.check(rule, deg >= written + 1, "%s: series branch agrees with the generic branch to O((%s-%s)^%d)"
+                        % (short, pn[0], pn[1], deg), F.loc(f),
+                        "%s: the series returned for %s ~ %s (terms up to (%s-%s)^%d) differs from the expansion of the generic "
+                        "branch already at order %d" % (short, pn[0], pn[1], pn[0], pn[1], written, deg), key=rule + "|" + short)
+                # truncation at the window edge relative to the leading term
+                W = [c[2][2][1] for c in true_conds(fa) if c[0] == "call" and str(c[1]).split("::")[-1] == "is_equal_rel" and c[2][2][0] == "num"]
+                if W:
+                    R.check(rule, float(2 * W[0]) ** (written + 1) <= 1e-7, "%s: window %g, first omitted order %d" % (short, float(W[0]), written + 1),
+                            F.loc(f), "%s: window %g is too wide for a series truncated after order %d ((2W)^%d = %.1e > 1e-7)"
+                            % (short, float(W[0]), written, written + 1, float(2 * W[0]) ** (written + 1)), key=rule + "w|" + short)
+            except (NotPolynomial, SeriesError) as e:
+                R.soft_broken(rule + " %s: %s" % (short, str(e)[:120]))
+    if n == 0:
+        R.soft_broken(rule + ": no series branch found in gm2_2loop_B.cpp (anchor dxlog vanished?)")
